@@ -31,9 +31,12 @@ STEPS_Q = (None, 1, 2, 3, -1, -2, -3)
 STEPS_T = (None, 1, 2, 3, 4, -1, -2, -3, -4)
 
 
+MEDIUM = [3, 0, 7, 1, 0, 0, 12, 2, 5, 0, 9, 4, 1, 33, 0, 2]      # one larger array (16 rows, 79 cells): size / threshold effects
+
+
 def shards(tier):
     if tier == "quick":
-        return [{"lens": v} for v in dsl.lens_vectors(3, 3)]
+        return [{"lens": v} for v in dsl.lens_vectors(3, 3)] + [{"lens": MEDIUM, "medium": 1}]
     vs = list(dsl.lens_vectors(4, 3))
     vs += [v for v in dsl.lens_vectors(2, 5) if max(v, default=0) > 3]
     return [{"lens": v} for v in vs]
@@ -75,8 +78,25 @@ def pair_row_selectors(n, level):
     yield ["m", [1] * (n + 1)]
 
 
+def _medium_cases(lens):
+    n = len(lens)
+    rows = ["E", ["i", 0], ["i", -1], ["i", 13], ["s", None, None, None], ["s", 2, 11, None], ["s", None, None, -1], ["s", 12, 1, -3], ["s", 1, None, 4],
+            ["l", [13, 0, 6, 6, 15]], ["a", [15, 14, 13]], ["m", [int(i % 3 != 1) for i in range(n)]], ["m", [1] * n]]
+    cols = ["E", ["i", 0], ["i", -1], ["i", 1], ["s", None, None, None], ["s", 1, None, None], ["s", None, None, -1], ["s", -2, None, None], ["s", None, 4, 2],
+            ["s", 10, 2, -3], ["s", -1, None, -2], ["s", 40, None, -1], ["s", 2, 30, 5]]
+    for r in rows:
+        yield [lens, r, "int64"]
+        for c in cols:
+            yield [lens, ["t", r, c], "int64"]
+    for dt in ("uint8", "float64"):
+        yield [lens, ["t", ["s", None, None, -1], ["s", None, None, -2]], dt]
+
+
 def cases(shard, tier):
     lens = shard["lens"]
+    if shard.get("medium"):
+        yield from _medium_cases(lens)
+        return
     n, m = len(lens), max(lens, default=0)
     steps = STEPS_Q if tier == "quick" else STEPS_T
     for rs in dsl.row_selectors(n, steps):
